@@ -402,6 +402,11 @@ def holds(st, ret, expect):
             L = ret.lin
             if L.d == 1 and all(c % (1 << expect[1]) == 0 for c in list(L.t.values()) + [L.cn]):
                 return True, ""
+            if L.d == 1 and len(L.t) > 1 and L.cn % (1 << expect[1]) == 0:
+                nk, g, _, _ = L.normalized()
+                m = st.cmod.get(nk)
+                if m is not None and (m * abs(g)) % (1 << expect[1]) == 0:
+                    return True, ""       # the form is recorded as a multiple of m (relation of a low-bits symbol)
             return False, "result not shown to be a multiple of 2^%d" % expect[1]
     except Infeasible:
         return True, ""
